@@ -154,6 +154,19 @@ def main() -> int:
         "wall_s": round(time.time() - t0, 2),
         "violations": len(by_sig) + (1 if broken and not by_sig else 0),
     }
+    def _trim(o, depth=0):
+        """evidence must stay small: long protocol lines / byte strings are cut to their head"""
+        if isinstance(o, str):
+            return o if len(o) <= 400 else o[:400] + f"...[{len(o)} chars]"
+        if isinstance(o, dict):
+            return {k: _trim(v, depth + 1) for k, v in list(o.items())[:200]}
+        if isinstance(o, (list, tuple)):
+            return [_trim(v, depth + 1) for v in list(o)[:60]]
+        return o
+    ev["coverage"]["samples"] = _trim(ev["coverage"]["samples"])
+    ev["coverage"]["notes"] = _trim(ev["coverage"]["notes"])
+    for k in list(ctx.extra):
+        ev["coverage"][k] = _trim(ev["coverage"][k])
     common.write_json(VERIF / "evidence" / f"{pid}.json", ev)
     for l in out_lines:
         print(l)
